@@ -196,7 +196,11 @@ def space_descs(kinds, segments=True, options=True, swapped=False):
 
 
 # ------------------------------------------------------------------ geometric location
-def locate_points(Vc, Ec, pts, hint_normal=None):
+class AmbiguousLocation(ValueError):
+    """A point lies strictly inside two different (overlapping, coplanar) elements: geometric location cannot decide."""
+
+
+def locate_points(Vc, Ec, pts, hint_normal=None, strict=False):
     """For physical points (3,Q) find for each the coarse element containing it and its local coordinates.
 
     Purely geometric (independent of any child numbering). Returns (elem (Q,), local (2,Q)).
@@ -227,6 +231,10 @@ def locate_points(Vc, Ec, pts, hint_normal=None):
         idx = np.flatnonzero(inside)
         if len(idx) == 0:
             raise ValueError("point lies in no coarse element")
+        if strict and len(idx) > 1:
+            strictly = [i for i in idx if s[i] > 1e-7 and t[i] > 1e-7 and s[i] + t[i] < 1 - 1e-7]
+            if len(strictly) > 1:
+                raise AmbiguousLocation(f"point lies strictly inside elements {strictly[:3]} (folded / overlapping mesh)")
         out_e[q] = idx[0]
         out_l[:, q] = (s[idx[0]], t[idx[0]])
     return out_e, out_l
